@@ -66,8 +66,8 @@ func zv4Load(s *state.Store) *zv4Tables {
 			t.kvs[x.Key] = x
 		case *state.VerifSessionCheck:
 			t.links = append(t.links, x)
-		case *structs.PreparedQuery:
-			t.queries = append(t.queries, x)
+		case *state.VerifQueryWrapper:
+			t.queries = append(t.queries, x.PreparedQuery)
 		case *state.IndexEntry:
 			if x.Value > t.index {
 				t.index = x.Value
